@@ -322,6 +322,11 @@ class DiffAntisymRBF(DiffRBF):
 
 
 class DiffLinearKernel(DiffKernelMixin, Kernel):
+    def __init__(self):
+        # sklearn kernels must have an explicit __init__ signature
+        # for get_params (and hence theta, bounds, clone, repr) to work.
+        pass
+
     def __call__(self, X, Y=None, eval_gradient=False):
         if Y is None:
             Y = X
